@@ -18,13 +18,23 @@
         <<"nl",0,0>> newline      <<"ml",0,0>> text that looks like an end marker (SF_CMD_END_xx:7)
         <<"ma",k,0>>,<<"mb",k,0>> the two halves of the end marker of call k (chunks may split it)
         <<"st",s,0>> exit status s
-   `attr[k]` fixes, per command: output shape, exit status, whether the call carries a (short) timeout and
-   where the command stalls for longer than that timeout (before any output / after its first token).
+        <<"ch",w,0>> ONE CHARACTER whose UTF-8 encoding has w byte units (w = 1..4)
+        <<"by",w,i>> byte unit i of such a character         <<"bad",0,0>> U+FFFD (replacement character)
+   What a command WRITES is text: a sequence of characters (Out).  What travels through the pipe are BYTE
+   UNITS (Encode): a character of width w is w units, and a chunk may end between any two units, i.e. in the
+   middle of a character.  What the reader accumulates is text again (Decode): the shell object keeps an
+   incremental decoder whose pending units (`sh.dec`) survive from one read to the next - and from one call to
+   the next, unless the end marker was found (reset) or the shell is replaced.  IncrementalDecode = FALSE is the
+   variant "every chunk is decoded on its own" (a character cut by a read comes back as U+FFFD).
+   `attr[k]` fixes, per command: output shape (for the shapes "utf"/"utfl" also the text `txt`: the widths of its
+   characters), exit status, whether the call carries a (short) timeout and
+   where the command stalls for longer than that timeout (before any output / after its first
+   unit - for a text that starts with a multi-byte character: in the middle of that character).
 
    One action = one atomic section of the code (asyncio: from one suspension to the next):
      Call(k)      get_shell + write of the framed command (+ the whole fallback when the write fails)
      ShellRun     the shell process: start the next queued command / emit up to the next stall
-     Read(k,n)    one reader iteration: a chunk of n tokens arrives, is appended and searched
+     Read(k,n)    one reader iteration: a chunk of n units arrives, is decoded, appended and searched
      Timeout(k)   wait_for(read) expires (only while the pipe is empty and the shell stalls)
      Wake         a stall ends            Kill   the idle shell process dies between two calls
    The shell is fast: ShellRun has priority over every other action.
@@ -43,7 +53,9 @@
 EXTENDS Naturals, Sequences, FiniteSets, TLC
 
 CONSTANTS N, Shapes, Statuses, Pres, AllowTimeout, AllowKill,
-          FallbackShell, CloseOnFailure, FallbackOnTimeout, PreambleInShell
+          FallbackShell, CloseOnFailure, FallbackOnTimeout, PreambleInShell,
+          UtfLen, UtfWidths,        \* texts of the shapes "utf"/"utfl": 1..UtfLen characters of widths in UtfWidths
+          IncrementalDecode         \* TRUE as coded: one incremental UTF-8 decoder per shell object
 
 VARIABLES attr, pc, ret, runs, garbled, sh, buf, killed, hist
 vars == <<attr, pc, ret, runs, garbled, sh, buf, killed, hist>>
@@ -59,6 +71,12 @@ MB(k) == <<"mb", k, 0>>
 ST(s) == <<"st", s, 0>>
 CW(d) == <<"cw", d, 0>>       \* "the working directory is d"   (0 = where the shell was started, k = workdir of call k)
 EV(x) == <<"ev", x, 0>>       \* "the variable has value x"      (0 = unset, k = value given by call k)
+CH(w) == <<"ch", w, 0>>       \* a character of w byte units
+BU(w, i) == <<"by", w, i>>    \* its i-th byte unit
+BAD == <<"bad", 0, 0>>        \* U+FFFD
+
+Utf == UNION {[1..n -> UtfWidths] : n \in 1..UtfLen}
+IsUtf(shape) == shape \in {"utf", "utfl"}
 
 HasWd(k) == attr[k].pre \in {"wd", "both"}
 HasEnv(k) == attr[k].pre \in {"env", "both"}
@@ -72,9 +90,15 @@ OutOf(shape, k) ==
     [] shape = "multi" -> <<O(k, 1), NL, E(k, 2), O(k, 3), NL>>        \* several writes, one of them to stderr
     [] shape = "mlike" -> <<ML, NL, O(k, 1)>>                          \* marker-like line, then text without newline
     [] shape = "probe" -> <<>>                                         \* see OutIn: prints what it sees
+    [] OTHER -> <<>>
+\* the text of a "utf" command: characters of the chosen widths, the end marker follows the last character directly;
+\* "utfl": the same text and a newline
+TextOf(k) == [i \in 1..Len(attr[k].txt) |-> CH(attr[k].txt[i])]
 \* output of command k when it runs in a shell whose own directory / variable are d / x
-OutIn(k, d, x) == IF attr[k].shape = "probe" THEN <<CW(SeenCwd(k, d)), NL, EV(SeenEnv(k, x))>>
-                  ELSE OutOf(attr[k].shape, k)
+OutIn(k, d, x) == CASE attr[k].shape = "probe" -> <<CW(SeenCwd(k, d)), NL, EV(SeenEnv(k, x))>>
+                    [] attr[k].shape = "utf"   -> TextOf(k)
+                    [] attr[k].shape = "utfl"  -> Append(TextOf(k), NL)
+                    [] OTHER -> OutOf(attr[k].shape, k)
 \* in a fresh process (directory and environment of the connector itself)
 Out(k) == OutIn(k, 0, 0)
 StdoutOnly(k) == SelectSeq(Out(k), LAMBDA t : t[1] # "e")
@@ -84,6 +108,26 @@ StreamOf(k, out) ==
     [] attr[k].slow = "pre" -> <<STALL>> \o out \o Marker(k)
     [] attr[k].slow = "mid" -> IF out = <<>> THEN <<STALL>> \o Marker(k)
                                ELSE <<Head(out), STALL>> \o Tail(out) \o Marker(k)
+
+\* text -> byte units (every other token is one indivisible unit)
+RECURSIVE Encode(_)
+Encode(s) == IF s = <<>> THEN <<>>
+             ELSE LET t == Head(s) IN (IF t[1] = "ch" THEN [i \in 1..t[2] |-> BU(t[2], i)] ELSE <<t>>) \o Encode(Tail(s))
+\* byte units -> text.  r = [txt: decoded so far, pend: units of a character that is not complete yet]
+Flush(r) == IF r.pend = <<>> THEN r ELSE [txt |-> Append(r.txt, BAD), pend |-> <<>>]     \* truncated character
+Feed(r, u) ==
+  IF u[1] # "by" THEN [Flush(r) EXCEPT !.txt = Append(@, u)]
+  ELSE IF u[3] = 1
+       THEN IF u[2] = 1 THEN [Flush(r) EXCEPT !.txt = Append(@, CH(1))] ELSE [Flush(r) EXCEPT !.pend = <<u>>]
+       ELSE IF r.pend # <<>> /\ r.pend[Len(r.pend)] = BU(u[2], u[3] - 1)
+            THEN IF u[3] = u[2] THEN [txt |-> Append(r.txt, CH(u[2])), pend |-> <<>>]
+                 ELSE [r EXCEPT !.pend = Append(@, u)]
+            ELSE [Flush(r) EXCEPT !.txt = Append(@, BAD)]                               \* continuation unit without its lead
+RECURSIVE DecodeFrom(_, _)
+DecodeFrom(r, units) == IF units = <<>> THEN r ELSE DecodeFrom(Feed(r, Head(units)), Tail(units))
+\* one reader iteration: the chunk goes through the shell's decoder (pending units `pend` from earlier chunks)
+Decode(pend, chunk) == LET r == DecodeFrom([txt |-> <<>>, pend |-> pend], chunk)
+                       IN IF IncrementalDecode THEN r ELSE Flush(r)
 
 RECURSIVE StripL(_)
 StripL(s) == IF s # <<>> /\ Head(s) = NL THEN StripL(Tail(s)) ELSE s
@@ -105,7 +149,7 @@ Expected(k) == IF attr[k].slow # "no" THEN <<"timeout", <<>>, 0>>
                ELSE <<"ok", Strip(Out(k)), attr[k].status>>
 
 NewShell == [closed |-> FALSE, dead |-> FALSE, inq |-> <<>>, cur |-> 0, rem |-> <<>>, stalled |-> FALSE, pipe |-> <<>>,
-             cwd |-> 0, env |-> 0]
+             cwd |-> 0, env |-> 0, dec |-> <<>>]
 NoShell == [NewShell EXCEPT !.closed = TRUE, !.dead = TRUE]
 Discard(s) == NoShell
 CanRun(s) == ~s.dead /\ ~s.stalled /\ (s.cur # 0 \/ s.inq # <<>>)
@@ -113,8 +157,8 @@ Finished(k) == pc[k] \in {"returned", "raised"}
 Reading == {k \in Cmd : pc[k] = "reading"}
 
 TS == IF AllowTimeout THEN {<<FALSE, "no">>, <<TRUE, "no">>, <<TRUE, "pre">>, <<TRUE, "mid">>} ELSE {<<FALSE, "no">>}
-Attrs == {[shape |-> s, status |-> x, tmo |-> ts[1], slow |-> ts[2], pre |-> p] :
-             s \in Shapes, x \in Statuses, ts \in TS, p \in Pres}
+Attrs == UNION {{[shape |-> s, status |-> x, tmo |-> ts[1], slow |-> ts[2], pre |-> p, txt |-> t] :
+                    x \in Statuses, ts \in TS, p \in Pres, t \in (IF IsUtf(s) THEN Utf ELSE {<<>>})} : s \in Shapes}
 
 H(a, k, n) == hist' = Append(hist, [a |-> a, k |-> k, n |-> n])
 
@@ -164,7 +208,7 @@ ShellRun ==
   /\ CanRun(sh)
   /\ LET starting == sh.cur = 0
          k == IF starting THEN Head(sh.inq) ELSE sh.cur
-         rem0 == IF starting THEN StreamOf(k, OutIn(k, sh.cwd, sh.env)) ELSE sh.rem
+         rem0 == IF starting THEN StreamOf(k, Encode(OutIn(k, sh.cwd, sh.env))) ELSE sh.rem
          \* the `cd` / `export` of the preamble: in a child process as coded, in the shell itself otherwise
          cwd1 == IF starting /\ PreambleInShell THEN SeenCwd(k, sh.cwd) ELSE sh.cwd
          env1 == IF starting /\ PreambleInShell THEN SeenEnv(k, sh.env) ELSE sh.env
@@ -184,8 +228,9 @@ Read(k, n) ==
   /\ n \in 1..Len(sh.pipe)
   /\ H("read", k, n)
   /\ UNCHANGED <<attr, killed>>
-  /\ LET b == buf \o SubSeq(sh.pipe, 1, n)
-         s1 == [sh EXCEPT !.pipe = SubSeq(@, n + 1, Len(@))]
+  /\ LET d == Decode(sh.dec, SubSeq(sh.pipe, 1, n))       \* decoder.decode(chunk, final=False)
+         b == buf \o d.txt
+         s1 == [sh EXCEPT !.pipe = SubSeq(@, n + 1, Len(@)), !.dec = d.pend]
          i == MarkerAt(b, k, 1)
          j == IF i = 0 THEN 0 ELSE IndexFrom(b, NL, i + 2)
      IN IF i = 0 \/ j = 0
@@ -194,7 +239,7 @@ Read(k, n) ==
              IF Len(code) = 1 /\ code[1][1] = "st"
              THEN /\ pc' = [pc EXCEPT ![k] = "returned"]
                   /\ ret' = [ret EXCEPT ![k] = Result("ok", Strip(SubSeq(b, 1, i - 1)), code[1][2], "shell")]
-                  /\ buf' = <<>> /\ sh' = s1
+                  /\ buf' = <<>> /\ sh' = [s1 EXCEPT !.dec = <<>>]          \* decoder.reset()
                   /\ UNCHANGED <<runs, garbled>>
              ELSE Fail(k, "invalid", s1)
 
@@ -239,6 +284,8 @@ TypeOK == /\ pc \in [Cmd -> {"idle", "reading", "returned", "raised"}]
 FreshEquivalence == \A k \in Cmd : Finished(k) => Obs(ret[k]) = Expected(k)
 \* output and status are those of the command alone
 OwnOutput == \A k \in Cmd : pc[k] = "returned" => ret[k].out = Strip(Out(k)) /\ ret[k].st = attr[k].status
+\* no character of the returned text is a replacement for bytes that a read boundary separated
+WholeCharacters == \A k \in Cmd : pc[k] = "returned" => \A i \in 1..Len(ret[k].out) : ret[k].out[i] # BAD
 \* a command that is not slow never times out
 NoSpuriousTimeout == \A k \in Cmd : pc[k] = "raised" => attr[k].slow # "no"
 \* a command's working directory / environment never become the session's
